@@ -124,6 +124,9 @@ class Interp:
         # nothing about scheduling, programs with real fiber interplay are judged by pbt/kpn.py instead
         self.fibers = False
         self.deferred = []
+        # xs[i()] op= e evaluating i() a second time before the store: NOT the semantics, only a way to tell whether
+        # a mismatch is the known finding 'compound index assignment evaluates its index twice' (checks/c01.py)
+        self.index_twice = False
         _natives.install(self)
 
     # ------------------------------------------------------------------ utilities
@@ -854,6 +857,8 @@ class Interp:
             cur = self.invoke(obj, "[]", [idx])
             r = self.eval(rhs, env)
             v = self.binop(op, cur, r)
+            if self.index_twice:
+                idx = self.eval(t[2], env)  # (the known defect, modelled to recognise it: see Interp.index_twice)
             return self.invoke(obj, "[]=", [v, idx])
         raise Unsupported("opassign target")
 
